@@ -23,7 +23,7 @@ T = "shuttle_engine::runtime::task::"
 E = "shuttle_engine::runtime::execution::"
 ES = E + "ExecutionState::"
 SLEEP = T + "Task::sleep_unless_woken"
-LOOPS = [T + "Task::from_future::{closure#0}", "shuttle_engine::future::block_on", "shuttle_std::future::block_on"]
+LOOPS = [T + "Task::from_future", "shuttle_engine::future::block_on", "shuttle_std::future::block_on"]
 
 
 def _is_poll(names):
@@ -35,6 +35,9 @@ def r1_poll_loops(ctx):
     may_switch = kinds.may_reach_set(prog, {kinds.SWITCH})
     for key in LOOPS:
         b = ctx.body(key, "C17.R1")
+        if not any(_is_poll(b.callees_of_call(t, passed=False)) for s, t in b.calls()):
+            # the poll loop is an async block inside the function: select it by what it does, not by its closure index
+            b = ctx.closure(key, lambda c: _is_poll([c]), "C17.R1", "Future::poll")
         polls = [s for s, t in b.calls() if _is_poll(b.callees_of_call(t, passed=False))]
         sleeps = [s for s, t in b.calls() if SLEEP in prog.may_reach(list(b.passed_callables(t))) or SLEEP in b.callees_of_call(t, passed=False)]
         sws = [s for s, t in b.calls() if kinds.SWITCH in b.callees_of_call(t, passed=False)]
